@@ -30,7 +30,7 @@ REQUIRED = ["kind.dynamic", "kind.static", "kind.lanelet", "kind.network", "kind
             "op.trajectory.append_state", "op.cycle_elements=", "op.element-edit", "op.time_offset=", "history-model-checked",
             "op.add_lanelet-deferred", "op.remove_lanelet-deferred", "op.lanelet.translate_rotate",
             "network.built-without-index", "op.merge.disjoint", "op.merge.new-then-duplicate", "op.merge.duplicate-first",
-            "op.lanelet.convert_to_2d", "static.move-creeping"]
+            "op.lanelet.convert_to_2d", "static.move-creeping", "dynamic.shape-off-centre"]
 EXHAUSTIVE = {"quick": "per object kind: all mutator sequences of length <= 2 (each step followed by the full query battery)",
               "thorough": "per object kind: all mutator sequences of length <= 3"}
 ASSUMPTIONS = ["direct assignment to vertices or shape parameters is not in the statement's mutator list",
@@ -54,14 +54,37 @@ def run(ctx):
     from vf.gen.objects import Gen
     from vf.oracle import geom
 
+    def exported(shape):
+        """what the shape EXPORTS (vertex ring / planar geometry bounds), besides its parameters"""
+        out = []
+        for m_ in (shape.shapes if hasattr(shape, "shapes") else [shape]):
+            v_ = getattr(m_, "vertices", None)
+            out.append(None if v_ is None else [(float(x_), float(y_)) for x_, y_ in np.asarray(v_)[:, :2]])
+            so = getattr(m_, "shapely_object", None)
+            out.append(None if so is None else tuple(float(b_) for b_ in so.bounds))
+        return out
+
     def occ_desc(o):
         return None if o is None else (o.time_step if isinstance(o.time_step, int) else (o.time_step.start, o.time_step.end),
-                                       geom.describe(o.shape))
+                                       geom.describe(o.shape), exported(o.shape))
+
+    def same_exported(a, b):
+        if len(a) != len(b):
+            return False
+        for x_, y_ in zip(a, b):
+            if (x_ is None) != (y_ is None):
+                return False
+            if x_ is None:
+                continue
+            xa, ya = np.asarray(x_, dtype=float), np.asarray(y_, dtype=float)
+            if xa.shape != ya.shape or np.abs(xa - ya).max() > 1e-7 * (1 + np.abs(xa).max()):
+                return False
+        return True
 
     def same_occ(a, b):
         if a is None or b is None:
             return a is None and b is None
-        return a[0] == b[0] and geom.desc_equal(a[1], b[1], 1e-9)
+        return a[0] == b[0] and geom.desc_equal(a[1], b[1], 1e-9) and same_exported(a[2], b[2])
 
     def same_state(a, b):
         if a is None or b is None:
@@ -84,13 +107,29 @@ def run(ctx):
                                           orientation=rng.uniform(-3, 3), velocity=5.0, steering_angle=0.0)
                                for k in range(n)])
 
+    def fresh_shape(s_):
+        """a NEW shape object built from the parameters (nothing a used shape object may have computed comes along)"""
+        from commonroad.geometry.shape import Polygon, ShapeGroup
+        n_ = type(s_).__name__
+        if n_ == "Rectangle":
+            return Rectangle(float(s_.length), float(s_.width), np.array(s_.center, dtype=float), float(s_.orientation))
+        if n_ == "Circle":
+            return Circle(float(s_.radius), np.array(s_.center, dtype=float))
+        if n_ == "Polygon":
+            return Polygon(np.array(s_.vertices, dtype=float)[:-1] if np.allclose(s_.vertices[0], s_.vertices[-1]) else
+                           np.array(s_.vertices, dtype=float))
+        if n_ == "ShapeGroup":
+            return ShapeGroup([fresh_shape(m_) for m_ in s_.shapes])
+        return copy.deepcopy(s_)
+
     def rebuild_dynamic(ob):
         p = ob.prediction
         if isinstance(p, TrajectoryPrediction):
-            p2 = TrajectoryPrediction(Trajectory(p.trajectory.initial_time_step, list(p.trajectory.state_list)), p.shape)
+            p2 = TrajectoryPrediction(Trajectory(p.trajectory.initial_time_step, list(p.trajectory.state_list)),
+                                      fresh_shape(p.shape))
         else:
             p2 = copy.deepcopy(p)
-        return DynamicObstacle(ob.obstacle_id, ob.obstacle_type, ob.obstacle_shape, ob.initial_state, p2)
+        return DynamicObstacle(ob.obstacle_id, ob.obstacle_type, fresh_shape(ob.obstacle_shape), ob.initial_state, p2)
 
     def query_dynamic(ob):
         ts = range(ob.initial_state.time_step - 1, ob.initial_state.time_step + 8)
@@ -190,7 +229,11 @@ def run(ctx):
 
     def run_dynamic(rng, ops, tag):
         G = Gen(rng)
-        shape = rng.choice([Rectangle(4.5, 1.8), Circle(1.0), G.polygon(at_origin=True)])
+        # (a rectangle whose reference point is not its centre: the rear axle of a car; an off-centre circle)
+        shape = rng.choice([Rectangle(4.5, 1.8), Circle(1.0), G.polygon(at_origin=True),
+                            Rectangle(4.5, 1.8, np.array([1.3, 0.0]), 0.0), Circle(1.0, np.array([0.0, 0.7]))])
+        _ = shape.shapely_object, getattr(shape, "vertices", None), shape.contains_point(np.array([0.0, 0.0]))
+        ctx.feature("dynamic.shape-off-centre" if np.abs(np.asarray(shape.center)).max() > 0.5 else "dynamic.shape-centred")
         init = st.InitialState(time_step=0, position=np.array([rng.uniform(-5, 5), rng.uniform(-5, 5)]),
                                orientation=rng.uniform(-3, 3), velocity=3.0)
         ob = DynamicObstacle(7, ObstacleType.CAR, shape, init, TrajectoryPrediction(mk_traj(rng, G, 1, 4), shape))
